@@ -50,6 +50,7 @@ class Spec:
     shuffle_exts: bool = False     # ServerHello extensions in random order
     master: bytes = None           # <= 1.2: use this master secret (a resumption shares it with the session it resumes; randoms are fresh)
     warn_alert: bool = False       # <= 1.2: the server sends a plaintext warning alert (unrecognized_name) right after its ServerHello record(s)
+    secrets13: dict = None         # TLS 1.3: use these traffic secrets ({"chs"|"shs"|"cap"|"sap": bytes}) instead of random ones (C15 picks secrets whose keys have edge values)
     cert_trap: bool = False        # Certificate body that reads as extensions 0x0016 / 0x002b=0304 to a parser that walks past the ServerHello
 
 
@@ -179,6 +180,7 @@ def build_conn(spec: Spec, rng) -> Conn:
         hname = p["prf"]
         hl = hashlib.new(hname).digest_size
         sec = {k: rb(hl) for k in ("chs", "shs", "cap", "sap", "exp")}
+        sec.update(spec.secrets13 or {})
         if spec.hs_secrets in (True, "client"):
             keylog.append(f"CLIENT_HANDSHAKE_TRAFFIC_SECRET {cr.hex()} {sec['chs'].hex()}")
         if spec.hs_secrets in (True, "server"):
